@@ -3,7 +3,7 @@
 import json, os, subprocess
 ROOT = os.path.dirname(os.path.abspath(__file__))
 HOOK_COMMITS = ["e7bc9c5", "f6269f5", "2435480", "75d319d"]
-SC = "Sequentially consistent interleavings at the granularity of hooked accesses only; plain/SIMD reads are atomic w.r.t. the scheduler; no physical block reuse inside a run; sampling, not proof."
+SC = "Sequentially consistent interleavings at the granularity of hooked accesses (hand-placed hooks, plus a scheduling point inserted by the compiler at every atomic operation in the hookall build job) only; plain/SIMD reads are atomic w.r.t. the scheduler; no physical block reuse inside a run; sampling, not proof."
 CLAIMED = {
  "C01": dict(engine="seqsim", level="exploration", design="DESIGN.md §6 C01",
    text="Seeded histories (20-400 operations: insert/remove/get/empty/clear, duplicates and absent removes, value lengths 0-5000) on db, mutex_db and olc_db x {uint64, byte-string keys} are executed "
@@ -20,7 +20,7 @@ CLAIMED = {
  "C03": dict(engine="olcsim", level="exploration", design="DESIGN.md §6 C03",
    text="2-4 QSBR-registered simulated threads x 1-4 get/insert/remove on a real olc_db prefilled to a structural boundary (leaf split, prefix split, growth/shrink at 4/16/48, collapse with leaf or inner-node survivor, "
         "root transitions); every lock-word and protected-field access is a scheduling point; histories stamped with the scheduler's step counter are checked per key with a Wing-Gong linearizability search; "
-        "a post-run single-threaded sweep must agree with an admissible final state. Schedules: sequential, preemption-bounded (1-3, stratified over measured lengths), PCT, random walk, round robin.",
+        "a post-run single-threaded sweep must agree with an admissible final state. Schedules: sequential (both thread orders), preemption-bounded (1-3), conflict-directed (preempt next to an access of a location another thread writes, recorded on the sequential schedules), PCT, random walk, round robin.",
    note="32 schedules per program; <= 4 threads, <= 16 concurrent operations, trees <= ~60 keys. " + SC,
    technique="deterministic simulation: seeded scheduler over parked OS threads + per-key linearizability checking"),
  "C04": dict(engine="olcsim", level="exploration", design="DESIGN.md §6 C04",
@@ -114,7 +114,7 @@ def main():
     for pid, c in CLAIMED.items():
         engines.setdefault(c["engine"], []).append(pid)
     man = dict(version=1,
-      setup_cmd="./check build asan-ndebug asan-debug asan-debug-nostats",
+      setup_cmd="./check build asan-ndebug asan-debug asan-debug-nostats hookall-ndebug",
       hooks=dict(guard="UNODB_DETAIL_VERIF_HOOKS", enable="./check compiles /repo's headers and qsbr.cpp/qsbr_ptr.cpp/art_internal.cpp directly with -DUNODB_DETAIL_VERIF_HOOKS (no CMake); "
                  "the harness defines unodb_verif_point/unodb_verif_buggify/unodb_verif_probe", baseline_off_cmd="./check baseline-off", source_commits=HOOK_COMMITS, add_only=True),
       engines=[dict(name=e, path="/verif/sim", serves_properties=sorted(p), kind_free_text="deterministic simulation engine inside the sim binary (./check builds it per configuration)") for e, p in sorted(engines.items())],
